@@ -6,7 +6,6 @@ package main
 // `generated = modelled` obligations for them.
 
 import (
-	"strconv"
 	"bytes"
 	"fmt"
 	"go/ast"
@@ -16,6 +15,7 @@ import (
 	"os"
 	"path/filepath"
 	"sort"
+	"strconv"
 	"strings"
 )
 
@@ -85,6 +85,27 @@ func runAstx(repo, outDir string) error {
 		fileNames = append(fileNames, fn)
 	}
 	sort.Strings(fileNames)
+	for _, fn := range fileNames { // pre-pass: package-level integer constants with a literal value
+		for _, d := range pkg.Files[fn].Decls {
+			gd, ok := d.(*ast.GenDecl)
+			if !ok || gd.Tok != token.CONST {
+				continue
+			}
+			for _, sp := range gd.Specs {
+				vs, ok := sp.(*ast.ValueSpec)
+				if !ok || len(vs.Names) != len(vs.Values) {
+					continue
+				}
+				for i, nm := range vs.Names {
+					if bl, ok := vs.Values[i].(*ast.BasicLit); ok && bl.Kind == token.INT {
+						if x, err := strconv.ParseInt(bl.Value, 0, 64); err == nil {
+							pkgIntConsts[nm.Name] = x
+						}
+					}
+				}
+			}
+		}
+	}
 	for _, fn := range fileNames {
 		f := pkg.Files[fn]
 		for _, d := range f.Decls {
@@ -303,7 +324,14 @@ func typeConstTable(decl *ast.GenDecl) []string {
 	return out
 }
 
+// package-level untyped integer constants (`const maxIndent = 10`), filled by runAstx before the tables are read
+var pkgIntConsts = map[string]int64{}
+
 func runeOfLit(e ast.Expr) (int64, bool) {
+	if id, ok := e.(*ast.Ident); ok {
+		v, ok := pkgIntConsts[id.Name]
+		return v, ok
+	}
 	bl, ok := e.(*ast.BasicLit)
 	if !ok {
 		return 0, false
@@ -572,50 +600,98 @@ func formatGuard(fset *token.FileSet, decl *ast.FuncDecl) string {
 	if decl.Type.Params != nil && len(decl.Type.Params.List) == 1 && len(decl.Type.Params.List[0].Names) == 1 {
 		param = decl.Type.Params.List[0].Names[0].Name
 	}
-	var conv func(e ast.Expr) string
-	conv = func(e ast.Expr) string {
+	// comparison of the parameter with a literal, in either order, possibly negated (negation is pushed to the leaves)
+	var conv func(e ast.Expr, neg bool) string
+	atom := func(op token.Token, c int64, neg bool) string {
+		// normalise to  param < c  /  param > c  over the integers
+		if neg {
+			switch op {
+			case token.LSS:
+				op = token.GEQ
+			case token.LEQ:
+				op = token.GTR
+			case token.GTR:
+				op = token.LEQ
+			case token.GEQ:
+				op = token.LSS
+			}
+		}
+		switch op {
+		case token.LSS:
+			return fmt.Sprintf("(GLt %d)", c)
+		case token.LEQ:
+			return fmt.Sprintf("(GLt %d)", c+1)
+		case token.GTR:
+			return fmt.Sprintf("(GGt %d)", c)
+		case token.GEQ:
+			return fmt.Sprintf("(GGt %d)", c-1)
+		}
+		return ""
+	}
+	flip := map[token.Token]token.Token{token.LSS: token.GTR, token.GTR: token.LSS, token.LEQ: token.GEQ, token.GEQ: token.LEQ}
+	conv = func(e ast.Expr, neg bool) string {
 		switch x := e.(type) {
 		case *ast.ParenExpr:
-			return conv(x.X)
+			return conv(x.X, neg)
+		case *ast.UnaryExpr:
+			if x.Op == token.NOT {
+				return conv(x.X, !neg)
+			}
 		case *ast.BinaryExpr:
 			switch x.Op {
-			case token.LOR:
-				return "(GOr " + conv(x.X) + " " + conv(x.Y) + ")"
-			case token.LAND:
-				return "(GAnd " + conv(x.X) + " " + conv(x.Y) + ")"
+			case token.LOR, token.LAND:
+				or := (x.Op == token.LOR) != neg // De Morgan
+				if or {
+					return "(GOr " + conv(x.X, neg) + " " + conv(x.Y, neg) + ")"
+				}
+				return "(GAnd " + conv(x.X, neg) + " " + conv(x.Y, neg) + ")"
 			case token.LSS, token.GTR, token.LEQ, token.GEQ:
-				id, ok := x.X.(*ast.Ident)
-				c, ok2 := runeOfLit(x.Y)
-				if ok && ok2 && id.Name == param {
-					switch x.Op {
-					case token.LSS:
-						return fmt.Sprintf("(GLt %d)", c)
-					case token.LEQ:
-						return fmt.Sprintf("(GLt %d)", c+1)
-					case token.GTR:
-						return fmt.Sprintf("(GGt %d)", c)
-					case token.GEQ:
-						return fmt.Sprintf("(GGt %d)", c-1)
+				if id, ok := x.X.(*ast.Ident); ok && id.Name == param {
+					if c, ok := runeOfLit(x.Y); ok {
+						return atom(x.Op, c, neg)
+					}
+				}
+				if id, ok := x.Y.(*ast.Ident); ok && id.Name == param {
+					if c, ok := runeOfLit(x.X); ok {
+						return atom(flip[x.Op], c, neg)
 					}
 				}
 			}
 		}
 		return "(GOther B" + coqStr(exprString(fset, e)) + ")"
 	}
-	for _, st := range decl.Body.List {
+	isPanicIf := func(st ast.Stmt) (ast.Expr, bool) {
 		is, ok := st.(*ast.IfStmt)
-		if !ok || is.Init != nil || len(is.Body.List) == 0 {
-			continue
+		if !ok || is.Init != nil || is.Else != nil || len(is.Body.List) == 0 {
+			return nil, false
 		}
 		if es, ok := is.Body.List[0].(*ast.ExprStmt); ok {
 			if call, ok := es.X.(*ast.CallExpr); ok {
 				if id, ok := call.Fun.(*ast.Ident); ok && id.Name == "panic" {
-					return conv(is.Cond)
+					return is.Cond, true
 				}
 			}
 		}
+		return nil, false
 	}
-	return "GNone"
+	// the guard = disjunction of the conditions of the panic-ifs that open the method (before anything else happens)
+	g := ""
+	for _, st := range decl.Body.List {
+		cond, ok := isPanicIf(st)
+		if !ok {
+			break
+		}
+		c := conv(cond, false)
+		if g == "" {
+			g = c
+		} else {
+			g = "(GOr " + g + " " + c + ")"
+		}
+	}
+	if g == "" {
+		return "GNone"
+	}
+	return g
 }
 
 // the ordered synchronisation-relevant statements of an async method and of its worker (a `step` closure started with
@@ -623,19 +699,71 @@ func formatGuard(fset *token.FileSet, decl *ast.FuncDecl) string {
 func asyncSkeleton(fset *token.FileSet, decl *ast.FuncDecl) string {
 	var mainI, workI []string
 	var workerBody *ast.BlockStmt
-	// find `step := func(...) {...}`
+	// names, read from the declaration itself rather than assumed: the callback parameter, the WaitGroup variables (locals and
+	// *sync.WaitGroup parameters of closures), the closures assigned to locals, the variable that is returned, simple locals
+	callback := "function"
+	if decl.Type.Params != nil && len(decl.Type.Params.List) >= 1 && len(decl.Type.Params.List[0].Names) >= 1 {
+		callback = decl.Type.Params.List[0].Names[0].Name
+	}
+	isWGType := func(e ast.Expr) bool {
+		t := strings.TrimPrefix(exprString(fset, e), "*")
+		return t == "sync.WaitGroup"
+	}
+	wgNames := map[string]bool{}
+	closures := map[string]*ast.FuncLit{}
+	locals := map[string]string{}
+	resultName := ""
 	ast.Inspect(decl.Body, func(n ast.Node) bool {
-		as, ok := n.(*ast.AssignStmt)
-		if !ok || len(as.Lhs) != 1 || len(as.Rhs) != 1 {
-			return true
-		}
-		if id, ok := as.Lhs[0].(*ast.Ident); ok && id.Name == "step" {
-			if fl, ok := as.Rhs[0].(*ast.FuncLit); ok {
-				workerBody = fl.Body
+		switch x := n.(type) {
+		case *ast.ValueSpec:
+			if x.Type != nil && isWGType(x.Type) {
+				for _, nm := range x.Names {
+					wgNames[nm.Name] = true
+				}
+			}
+		case *ast.AssignStmt:
+			if len(x.Lhs) == 1 && len(x.Rhs) == 1 {
+				if id, ok := x.Lhs[0].(*ast.Ident); ok {
+					rhs := exprString(fset, x.Rhs[0])
+					if fl, ok := x.Rhs[0].(*ast.FuncLit); ok {
+						closures[id.Name] = fl
+					} else if rhs == "sync.WaitGroup{}" || rhs == "&sync.WaitGroup{}" || rhs == "new(sync.WaitGroup)" {
+						wgNames[id.Name] = true
+					} else if x.Tok == token.DEFINE {
+						locals[id.Name] = rhs
+					}
+				}
+			}
+		case *ast.FuncLit:
+			for _, p := range x.Type.Params.List {
+				if isWGType(p.Type) {
+					for _, nm := range p.Names {
+						wgNames[nm.Name] = true
+					}
+				}
+			}
+		case *ast.ReturnStmt:
+			if len(x.Results) == 1 {
+				if id, ok := x.Results[0].(*ast.Ident); ok {
+					resultName = id.Name
+				}
 			}
 		}
 		return true
 	})
+	// `pending.Add`, `group.Done` ... -> the method name when the receiver is one of the WaitGroup variables
+	wgCall := func(fn string) string {
+		i := strings.LastIndex(fn, ".")
+		if i < 0 {
+			return ""
+		}
+		recv := strings.TrimPrefix(strings.TrimPrefix(fn[:i], "(*"), "&")
+		recv = strings.TrimSuffix(recv, ")")
+		if wgNames[recv] {
+			return fn[i+1:]
+		}
+		return ""
+	}
 	callName := func(e ast.Expr) string {
 		if c, ok := e.(*ast.CallExpr); ok {
 			return exprString(fset, c.Fun)
@@ -652,25 +780,90 @@ func asyncSkeleton(fset *token.FileSet, decl *ast.FuncDecl) string {
 		})
 		return found
 	}
+	spawnLoop := func(loopBody *ast.BlockStmt, loopVars map[string]bool, loopDefines bool) {
+		for _, bs := range loopBody.List {
+			switch g := bs.(type) {
+			case *ast.GoStmt:
+				byValue := false
+				switch fun := g.Call.Fun.(type) {
+				case *ast.Ident: // go step(&wg, i, item.getVal()): a closure defined before the loop gets its arguments by value
+					if fl, ok := closures[fun.Name]; ok {
+						workerBody = fl.Body
+						nonWG := 0
+						for _, p := range fl.Type.Params.List {
+							if !isWGType(p.Type) {
+								nonWG += len(p.Names)
+							}
+						}
+						// a closure defined before a `for k, v := range` loop cannot see the loop's variables at all; with
+						// `=` (outer variables) it could, unless its own parameters shadow them
+						captured := map[string]bool{}
+						if !loopDefines {
+							for v := range loopVars {
+								captured[v] = true
+							}
+							for _, p := range fl.Type.Params.List {
+								for _, nm := range p.Names {
+									delete(captured, nm.Name)
+								}
+							}
+						}
+						byValue = nonWG >= 2 && len(g.Call.Args) >= 2 && !usesIdent(fl.Body, captured)
+					}
+				case *ast.FuncLit: // go func(i, x) {...}(i, item.getVal())
+					workerBody = fun.Body
+					// by value iff the literal's body does not mention the loop variables (they only appear in the call's arguments),
+					// unless a parameter of the same name shadows them
+					shadow := map[string]bool{}
+					for _, p := range fun.Type.Params.List {
+						for _, nm := range p.Names {
+							shadow[nm.Name] = true
+						}
+					}
+					captured := map[string]bool{}
+					for v := range loopVars {
+						if !shadow[v] {
+							captured[v] = true
+						}
+					}
+					byValue = len(g.Call.Args) >= 2 && !usesIdent(fun.Body, captured)
+				}
+				if byValue {
+					mainI = append(mainI, "(MSpawn true)")
+				} else {
+					mainI = append(mainI, "(MSpawn false)")
+				}
+			case *ast.ExprStmt:
+				if fn := callName(g.X); wgCall(fn) == "Add" {
+					mainI = append(mainI, "(MOther (B"+coqStr("wg.Add inside the loop")+"))")
+				} else if fn != "" {
+					mainI = append(mainI, "(MOther (B"+coqStr(fn+" in the spawn loop without go")+"))")
+				}
+			}
+		}
+	}
 	var walkMain func(stmts []ast.Stmt)
 	walkMain = func(stmts []ast.Stmt) {
 		for _, st := range stmts {
 			switch x := st.(type) {
 			case *ast.ExprStmt:
 				switch fn := callName(x.X); {
-				case strings.HasSuffix(fn, ".Add") && strings.HasPrefix(fn, "wg"):
+				case wgCall(fn) == "Add":
 					arg := exprString(fset, x.X.(*ast.CallExpr).Args[0])
+					if def, ok := locals[arg]; ok { // n := ego.Count(); wg.Add(n)
+						arg = def
+					}
 					if strings.Contains(arg, "Count()") || strings.Contains(arg, "len(ego.val)") {
 						mainI = append(mainI, "MAdd")
 					} else {
 						mainI = append(mainI, "(MOther (B"+coqStr("wg.Add("+arg+")")+"))")
 					}
-				case fn == "wg.Wait":
+				case wgCall(fn) == "Wait":
 					mainI = append(mainI, "MWait")
 				}
 			case *ast.AssignStmt:
 				if len(x.Lhs) == 1 {
-					if id, ok := x.Lhs[0].(*ast.Ident); ok && id.Name == "result" {
+					if id, ok := x.Lhs[0].(*ast.Ident); ok && resultName != "" && id.Name == resultName {
 						mainI = append(mainI, "MMakeResult")
 					}
 				}
@@ -681,44 +874,19 @@ func asyncSkeleton(fset *token.FileSet, decl *ast.FuncDecl) string {
 						loopVars[id.Name] = true
 					}
 				}
-				for _, bs := range x.Body.List {
-					switch g := bs.(type) {
-					case *ast.GoStmt:
-						byValue := false
-						switch fun := g.Call.Fun.(type) {
-						case *ast.Ident: // go step(&wg, i, item.getVal())
-							byValue = fun.Name == "step" && len(g.Call.Args) >= 2
-						case *ast.FuncLit: // go func(i, x) {...}(i, item.getVal())
-							workerBody = fun.Body
-							// by value iff the literal's body does not mention the loop variables (they only appear in the call's arguments),
-							// unless a parameter of the same name shadows them
-							shadow := map[string]bool{}
-							for _, p := range fun.Type.Params.List {
-								for _, nm := range p.Names {
-									shadow[nm.Name] = true
-								}
-							}
-							captured := map[string]bool{}
-							for v := range loopVars {
-								if !shadow[v] {
-									captured[v] = true
-								}
-							}
-							byValue = len(g.Call.Args) >= 2 && !usesIdent(fun.Body, captured)
-						}
-						if byValue {
-							mainI = append(mainI, "(MSpawn true)")
-						} else {
-							mainI = append(mainI, "(MSpawn false)")
-						}
-					case *ast.ExprStmt:
-						if fn := callName(g.X); strings.HasSuffix(fn, ".Add") && strings.HasPrefix(fn, "wg") {
-							mainI = append(mainI, "(MOther (B"+coqStr("wg.Add inside the loop")+"))")
-						} else if fn != "" {
-							mainI = append(mainI, "(MOther (B"+coqStr(fn+" in the spawn loop without go")+"))")
+				spawnLoop(x.Body, loopVars, x.Tok == token.DEFINE)
+			case *ast.ForStmt: // for i := 0; i < n; i++ { go ... }
+				loopVars := map[string]bool{}
+				defines := false
+				if as, ok := x.Init.(*ast.AssignStmt); ok {
+					defines = as.Tok == token.DEFINE
+					for _, e := range as.Lhs {
+						if id, ok := e.(*ast.Ident); ok && id.Name != "_" {
+							loopVars[id.Name] = true
 						}
 					}
 				}
+				spawnLoop(x.Body, loopVars, defines)
 			case *ast.ReturnStmt:
 				mainI = append(mainI, "MRet")
 			}
@@ -729,7 +897,7 @@ func asyncSkeleton(fset *token.FileSet, decl *ast.FuncDecl) string {
 		found := false
 		ast.Inspect(n, func(x ast.Node) bool {
 			if c, ok := x.(*ast.CallExpr); ok {
-				if id, ok := c.Fun.(*ast.Ident); ok && id.Name == "function" {
+				if id, ok := c.Fun.(*ast.Ident); ok && id.Name == callback {
 					found = true
 				}
 			}
@@ -748,11 +916,11 @@ func asyncSkeleton(fset *token.FileSet, decl *ast.FuncDecl) string {
 					workI = append(workI, "WLock")
 				case strings.HasSuffix(fn, ".Unlock"):
 					workI = append(workI, "WUnlock")
-				case strings.HasSuffix(fn, ".Done"):
+				case wgCall(fn) == "Done":
 					workI = append(workI, "WDone")
-				case fn == "function":
+				case fn == callback:
 					workI = append(workI, "WCall")
-				case fn == "result.Replace" || fn == "result.Set":
+				case resultName != "" && (fn == resultName+".Replace" || fn == resultName+".Set"):
 					if callsFunction(x.X) {
 						workI = append(workI, "WCallStore")
 					} else {
